@@ -85,13 +85,36 @@ fn ctx_for(prop: &str, tier: &str) -> Ctx {
 fn parent(prop: &str, tier: &str) -> i32 {
     let exe = std::env::current_exe().expect("current_exe");
     let mem_kib: u64 = std::env::var("VERIF_MEM_KIB").ok().and_then(|s| s.parse().ok()).unwrap_or(24 * 1024 * 1024);
-    let status = std::process::Command::new("sh")
+    // the worker's stderr is forwarded line by line; an allocation-failure abort of the worker
+    // (the checker's own tables hitting the address-space limit) must be told apart from an
+    // abort inside the library
+    let child = std::process::Command::new("sh")
         .arg("-c")
         .arg(format!("ulimit -v {}; ulimit -s 8192; exec \"$0\" worker \"$1\" \"$2\"", mem_kib))
         .arg(&exe)
         .arg(prop)
         .arg(tier)
-        .status();
+        .stderr(std::process::Stdio::piped())
+        .spawn();
+    let mut alloc_failed = false;
+    let status = match child {
+        Ok(mut ch) => {
+            if let Some(err) = ch.stderr.take() {
+                use std::io::BufRead;
+                let rd = std::io::BufReader::new(err);
+                for line in rd.split(b'\n') {
+                    let Ok(line) = line else { break };
+                    let text = String::from_utf8_lossy(&line);
+                    if text.starts_with("memory allocation of ") {
+                        alloc_failed = true;
+                    }
+                    eprintln!("{}", text);
+                }
+            }
+            ch.wait()
+        }
+        Err(e) => Err(e),
+    };
     match status {
         Ok(st) => {
             if let Some(code) = st.code() {
@@ -100,6 +123,14 @@ fn parent(prop: &str, tier: &str) -> i32 {
             // died on a signal: abort / stack overflow / OOM-kill.  Attribute it to a case.
             use std::os::unix::process::ExitStatusExt;
             let sig = st.signal().unwrap_or(0);
+            // SIGKILL / SIGTERM / SIGINT / SIGHUP come from outside (OOM killer, a time limit of
+            // the caller); an allocation failure is the checker's own memory.  Neither says
+            // anything about the library: machinery exit, never a verdict.
+            if matches!(sig, 9 | 15 | 2 | 1) || alloc_failed {
+                eprintln!("ENGINE-FAILURE worker died on signal {}{}; no verdict", sig, if alloc_failed { " after an allocation failure (address-space limit)" } else { " (sent from outside the process)" });
+                let _ = std::fs::remove_file(format!("{}/evidence/{}.json", verif_dir(), prop));
+                return 3;
+            }
             let ctx = ctx_for(prop, tier);
             let progress = std::fs::read_to_string(progress_path(prop)).unwrap_or_default();
             let path = format!("{}/replay/{}/crash.json", verif_dir(), prop);
